@@ -5,7 +5,9 @@ package cmd
 
 import (
 	"encoding/json"
+	"errors"
 	"fmt"
+	"io/fs"
 	"math"
 	"os"
 	"path"
@@ -110,6 +112,11 @@ func dedupLoop(configArgs map[string]string, w *fsnotify.Watcher, completedChann
 			for _, dir := range dirsToWatch {
 				// adding a directory that is already watched is a no-op
 				if err := w.Add(dir); err != nil {
+					if errors.Is(err, fs.ErrNotExist) {
+						// A referenced package that could not be loaded because its
+						// directory is gone. This has been reported as an error.
+						continue
+					}
 					completedChannel <- err
 					return
 				}
